@@ -39,7 +39,7 @@ ASSUMPTIONS = ["code outside the traced files is atomic between two pre-emption 
                "request loss/duplication not injected: no property promises idempotent retry",
                "sampling over schedules, not proof; the single-pre-emption sweep is complete only for the sampled request pairs"]
 FAULT_KINDS = ["preemption", "client_disconnect", "step_exception", "invalid_request", "state_store_error"]
-PROBES = ["save_failed_during_stepping_request", "exception_inside_a_step", "time_passes_while_stream_held", "held_stream", "late_close_of_finished_stream", "session_restarted_during_choreography", "stepping_without_session", "invalid_request_sent", "disconnect_mid_stream", "exception_mid_request",
+PROBES = ["view_and_body_on_different_threads", "save_failed_during_stepping_request", "exception_inside_a_step", "time_passes_while_stream_held", "held_stream", "late_close_of_finished_stream", "session_restarted_during_choreography", "stepping_without_session", "invalid_request_sent", "disconnect_mid_stream", "exception_mid_request",
           "refused_while_locked", "stream_completed", "preempted_inside_run_step"]
 EXHAUSTIVE = {"quick": False, "thorough": False}
 
@@ -147,6 +147,18 @@ def plan(tier, verif_seed):
         for k in range(r0.extra.get("first_point", 0), r0.points):
             yield {"i": i, "mode": "overtake", "kinds": [a, b], "seed": spec0["seed"], "k": k}
             i += 1
+    # 3d. two overtakings in a row on a triple: an INVALID run-steps A is overtaken by a stream B inside one of A's windows, B is
+    #     interrupted somewhere and A finishes, then a run-step C arrives while B is still in progress (what A does after its
+    #     error response is decided must not matter to B)
+    for bad in ("run_steps_bad",):
+        spec0 = {"i": i, "mode": "directed", "kinds": ["run_step", "stream", bad], "seed": derive_seed(verif_seed, PROPERTY, "overtake2", bad)}
+        r0 = execute(generate(spec0))
+        first = r0.extra.get("first_point", 0)
+        stride = 5 if tier == "quick" else 1
+        for k1 in range(first, min(r0.points, first + 70)):
+            for k2 in range(k1 + 2, min(r0.points, k1 + 260), stride):
+                yield {"i": i, "mode": "overtake2", "kinds": ["run_step", "stream", bad], "seed": spec0["seed"], "stages": [[k1, 2], [k2, 3]]}
+                i += 1
     if tier != "thorough":
         return
     # 4. complete single-pre-emption sweep for every ordered pair of the five basic kinds
@@ -249,6 +261,9 @@ def generate(spec):
     if spec["mode"] == "choreo":
         c = base_case([], {"kind": "default"}, pre=rng.choice([0, 1]), stop=float(rng.choice([8, 12, 16])), adapter=rng.choice([None, None, "plain"]))
         c["choreo"] = gen_choreo(rng)
+        for a_ in c["choreo"]:
+            if a_["a"] == "open" and rng.random() < 0.3:
+                a_["other_thread"] = True
         if c["config"].get("adapter") and rng.random() < 0.5:
             # the state store fails while a stepping request externalises its state (disk full, store down): the request
             # ends by error, and the lock is released all the same
@@ -265,6 +280,8 @@ def generate(spec):
         sched = {"kind": "default"}
     elif mode == "overtake":
         sched = {"kind": "overtake", "k": spec["k"], "to": 1}
+    elif mode == "overtake2":
+        sched = {"kind": "overtake", "stages": spec["stages"]}
     elif mode == "sweep":
         # driver=0, clients are tasks 1..n in start order; by default the LAST client runs first
         # (depth-first), the single pre-emption hands the baton to the first one
@@ -357,7 +374,22 @@ def execute_choreo(case):
                     prev = w.cur_req
                     w.cur_req = "h" + a["h"]
                     try:
-                        rr = client.open("/%s/stream-steps" % inst, method="POST", json={"settings": {}}, buffered=False)
+                        if a.get("other_thread"):
+                            # the WSGI server may run the view on one thread and stream the body from another: the view runs
+                            # on a thread of its own here (started and joined at once, so the history stays sequential), the
+                            # body is read and closed on this one
+                            import threading
+                            box_ = {}
+
+                            def _view():
+                                box_["r"] = client.open("/%s/stream-steps" % inst, method="POST", json={"settings": {}}, buffered=False)
+                            th_ = threading.Thread(target=_view)
+                            th_.start()
+                            th_.join()
+                            rr = box_["r"]
+                            res.probe("view_and_body_on_different_threads")
+                        else:
+                            rr = client.open("/%s/stream-steps" % inst, method="POST", json={"settings": {}}, buffered=False)
                     finally:
                         w.cur_req = prev
                     it = iter(rr.response)
